@@ -292,6 +292,32 @@ def step(case, rng, mole, t: Table, ops_log):
         cols2 = t.columns if same_cols else [c for c in t.columns if c == "uid" or rng.random() < 0.6]
         other = make_table(rng, int(rng.integers(0, 5)), cols2)
         mo = to_molecules(other)
+        if rng.random() < 0.15 and len(other.rows) > 0 and len(t.rows) > 0:
+            # a table without any feature: accepted (missing values -> null) or rejected, never misaligned
+            from acryo import Molecules as _M
+
+            bare = _M(mo.pos, mo.rotator)
+            ops_log[-1] = f"{op}(featureless)"
+            n0 = len(mole)
+            try:
+                if op == "concat":
+                    res = _M.concat([mole, bare])
+                elif op == "concat_with":
+                    res = mole.concat_with(bare)
+                else:
+                    res = mole.copy().append(bare)
+            except Exception:
+                case.check(True, "")
+                return mole, t
+            ok = len(res) == n0 + len(bare) and res.pos.shape[0] == len(res) and \
+                (res.features.shape[1] == 0 or len(res.features) == len(res))
+            if ok and res.features.shape[1] and "uid" in res.features.columns:
+                u = res.features["uid"].to_list()
+                ok = u[:n0] == [r["uid"] for r in t.rows] and all(x is None for x in u[n0:]) and \
+                    np.array_equal(res.pos[:n0], mole.pos) and np.array_equal(res.pos[n0:], bare.pos)
+            case.check(ok, f"{op} with a featureless table gave an inconsistent table", None,
+                       n_pos=int(res.pos.shape[0]), n_feat=int(len(res.features)))
+            return mole, t
         merged_rows = [dict(r, feats={c: r["feats"].get(c) for c in t.columns}) for r in t.rows + other.rows]
         t2 = Table(merged_rows, t.columns)
         if op == "concat":
